@@ -15,6 +15,12 @@ use std::collections::{BTreeMap, BTreeSet};
 pub struct C03;
 
 pub fn gen_spec(rng: &mut Rng, screen: &mut Screen) -> (RunSpec, usize, usize) {
+    gen_spec_at(rng, screen, true)
+}
+
+/// `vary`: the root may lie elsewhere than /w/c and eligible files may be blank (callers that fix
+/// the directory or the pattern lists themselves pass false).
+pub fn gen_spec_at(rng: &mut Rng, screen: &mut Screen, vary: bool) -> (RunSpec, usize, usize) {
     let mut world = World::new("/w");
     let mut k = TreeKnobs::draw(rng);
     if rng.chance(1, 2) {
@@ -24,14 +30,16 @@ pub fn gen_spec(rng: &mut Rng, screen: &mut Screen) -> (RunSpec, usize, usize) {
         k.min_eligible = rng.range(2, 4);
         k.max_files_per_dir = k.max_files_per_dir.max(2);
     }
-    k.blank_files = rng.chance(1, 8);
-    gen::gen_tree(rng, screen, &mut world, "/w/c", &k);
+    k.blank_files = vary && rng.chance(1, 8);
+    // the analysed root sometimes lies below a directory whose name tools like to treat specially
+    let root = if vary { gen::gen_root(rng) } else { "/w/c" };
+    gen::gen_tree(rng, screen, &mut world, root, &k);
     let place = if rng.chance(1, 2) {
         CwdPlace::Parent
     } else {
         CwdPlace::Unrelated
     };
-    let dir = gen::place_cwd(rng, &mut world, "/w/c", place);
+    let dir = gen::place_cwd(rng, &mut world, root, place);
     let (schedule, lm, im) = gen::gen_schedule(rng, &world);
     let (mut vul, mut opt, mut qa) = (gen::gen_pats(rng, Cat::Vul), gen::gen_pats(rng, Cat::Opt), gen::gen_pats(rng, Cat::Qa));
     for l in [&mut vul, &mut opt, &mut qa] {
